@@ -48,6 +48,26 @@ type Ctx struct {
 	Notes    []string
 	floors   map[string]int
 	findings []Finding
+	// rename, when set, maps a rule id of an imported rule set to this property's id space
+	// (second result false = drop the obligation).
+	rename func(string) (string, bool)
+}
+
+// Import runs another property's rule function and keeps only the obligations of the listed
+// rules, re-labelled "<thisProperty>.<tag><rule suffix>" — used where one structural clause is
+// a necessary condition of several properties (e.g. "never resolve a live lock" for C02 and C04).
+func (c *Ctx) Import(run func(*Ctx), fromProp string, keep []string, tag string) {
+	old := c.rename
+	c.rename = func(r string) (string, bool) {
+		for _, k := range keep {
+			if r == fromProp+"."+k {
+				return c.Property + "." + tag + k, true
+			}
+		}
+		return "", false
+	}
+	run(c)
+	c.rename = old
 }
 
 func NewCtx(p *Prog, property, tier string, findings []Finding) *Ctx {
@@ -55,6 +75,13 @@ func NewCtx(p *Prog, property, tier string, findings []Finding) *Ctx {
 }
 
 func (c *Ctx) add(rule, construct, pos, verdict, detail string) {
+	if c.rename != nil {
+		nr, ok := c.rename(rule)
+		if !ok {
+			return
+		}
+		rule = nr
+	}
 	if verdict == Violation {
 		for _, f := range c.findings {
 			if f.Status == "finding" && f.Property == c.Property && f.Rule == rule && f.Construct == construct {
